@@ -30,7 +30,7 @@ CHECKS = {
    design_ref="§6 C09", technique="Lean 4 proof + exact diagnostics predicate on exact-rational runs of the real templates",
    note="exact arithmetic; MAX_ITER primal_inf/dual_inf are not claimed (property restriction)"),
  "C10": dict(category="proof",
-   text="Lean theorems upperOfMat_reads_upper_only (two P arguments agreeing on the upper triangle are stored identically) and backends_agree_exact (any two back ends with coherent reduced matrices and exact inner solves return steps with the same image under the full Newton operator, hence equal steps when it is injective; from C13). Tie: the four sparse KKT formulations give identical rationals on the same problem/settings (refinement off), and P supplied upper / full / upper+garbage-lower gives the identical complete output in setup() and update() on all five back ends.",
+   text="Theorems setup_lower_triangle_irrelevant / update_lower_triangle_irrelevant (interface level: two P arguments of the same shape that agree on and above the diagonal - lower triangle absent, symmetric or garbage - lead to the same state and outcome at setup for every back end, and at update for the dense back end), Lean theorems upperOfMat_reads_upper_only (two P arguments agreeing on the upper triangle are stored identically) and backends_agree_exact (any two back ends with coherent reduced matrices and exact inner solves return steps with the same image under the full Newton operator, hence equal steps when it is injective; from C13). Tie: the four sparse KKT formulations give identical rationals on the same problem/settings (refinement off), and P supplied upper / full / upper+garbage-lower gives the identical complete output in setup() and update() on all five back ends.",
    design_ref="§6 C10", technique="Lean 4 proof (only utri(P) is read) + exact-rational equality across formulations and P storages",
    note="agreement of dense vs sparse 'within tolerance' in floating point is not decided here"),
  "C02": dict(category="other",
